@@ -384,7 +384,13 @@ example : Router.dispatch ([svc0, svc1, svc2, svc3].map (fun s => serverOf s { e
 
 /-! ### Sets of services and builder histories (dimension audit aC11) -/
 
-/-- **A service of a set is generated as if it were alone.**  In a descriptor set (several
+/-- Transcription lemma (definitional): `generateSet ds o` is DEFINED as `ds.map (generate · o)`, so
+this is `List.map_append` and holds of any per-service generator; it restates the model's reading of
+`ServiceGenerator::generate` being called once per service with fresh `CodeGenBuilder`s and carries
+no assurance of its own.  That the real front ends carry nothing from one service of a set to the
+next is established by the correspondence run (`px` descriptor sets with 1–4 services — same name in
+two packages, with / without a package — and `mx` `manual::Builder::compile` on several services).
+**A service of a set is generated as if it were alone.**  In a descriptor set (several
 services in one `.proto` file, several files of one package, several packages; or
 `manual::Builder::compile(&[…])`) what is generated for a service does not depend on what stands
 before or after it: same Rust name in another package, a package that is a prefix of another, any
@@ -393,7 +399,12 @@ theorem C11_set_member_independent_of_neighbours (pre post : List Service) (s : 
     generateSet (pre ++ s :: post) o = generateSet pre o ++ generate s o :: generateSet post o := by
   simp [generateSet]
 
-/-- **Every service of a set conforms** to its own definition (the executable spec predicate the
+/-- Transcription lemma (definitional): `List.length_map` + `List.mem_map` + `C11_conforms`, which is
+itself a transcription lemma (`toDef` takes the types from the model's own `Method.types`, so
+"conforms" compares the model with a definition read off the model) — no assurance of its own; the
+conformance of the EMITTED code to the descriptor is what the driver's evaluation of
+`Spec.Codegen.conforms` on the `px` / `mx` cases establishes, per service.
+**Every service of a set conforms** to its own definition (the executable spec predicate the
 driver evaluates per service on `px` / `mx` cases), and the set has one output per service, in order. -/
 theorem C11_set_conforms (ds : List Service) (o : Opts) :
     (generateSet ds o).length = ds.length ∧
@@ -446,7 +457,11 @@ theorem C11_builder_run_append (st : BState) (a b : List BOp) :
     rw [ih]
     rfl
 
-/-- **Generating changes nothing in the builder**: `generate_server` / `generate_client` (and the
+/-- Transcription lemma (definitional, `⟨rfl, rfl, rfl⟩`): `BState.set` is written with a catch-all arm
+`| _ => st` for everything but the two setters (`generate_*` take `&self`); it pins the model's shape
+for the `gseq` correspondence cases (one `CodeGenBuilder` reconfigured between 2–5 generations), which
+carry the assurance.
+**Generating changes nothing in the builder**: `generate_server` / `generate_client` (and the
 setters of the other fields) leave the value as it was, so the same service generated twice in a
 row comes out the same, in whichever order the two sides are generated. -/
 theorem C11_builder_generation_keeps_value (st : BState) (s : Service) (p : Bytes) :
@@ -458,7 +473,12 @@ theorem C11_builder_generation_keeps_value (st : BState) (s : Service) (p : Byte
 service emits exactly what the model emits for the options now in force — each the value its
 setter was last called with, else the default — and that output satisfies the executable spec
 predicate for those options.  In particular nothing of an earlier service (its name, its
-package, an earlier `emit_package` value) can show. -/
+package, an earlier `emit_package` value) can show.
+What carries weight here: the first two conjuncts (an invariant over the history: the options in
+force are the LAST value each setter was given — `lastEmit` / `lastWkt` — and the output is the
+single-service model's for them), within the model `BState` whose `set` ignores `generate_*` by
+construction (`C11_builder_generation_keeps_value`).  The THIRD conjunct re-exports the transcription
+lemma `C11_conforms` (definitional, no assurance of its own) for convenience only.  Tie: `gseq`. -/
 theorem C11_builder_has_no_memory (st : BState) (pre : List BOp) (s : Service) (p : Bytes) :
     let o : Opts := ⟨lastEmit st.emitPackage pre, lastWkt st.compileWkt pre, p⟩
     st.run (pre ++ [.genServer s p, .genClient s p]) =
